@@ -170,7 +170,12 @@ async def check(case, rec):
             raise Violation("C19:failed-job-never-completed", f"{job}; plan {plan}")
         justified = sum(
             1 for e in view.recoveries
-            if e["seq"] > dn[0] and job in shape.ancestors(e["job"]) and job in view.unavailable(e["rid"])
+            if e["seq"] > dn[0] and (
+                (job in shape.ancestors(e["job"]) and job in view.unavailable(e["rid"]))
+                # the job's own step failing after its command completed (its output vanished before the
+                # output processor registered it)
+                or (e["job"] == job and e["step"] == job.rsplit("/", 1)[0])
+            )
         )
         if len(dn) > 1 + justified:
             raise Violation(
